@@ -83,7 +83,7 @@ def gen_cases(rng, n, tier):
 def gen_compare_prog(rng):
     """Operands (integers, fractions, negatives, NaN from an empty stack) prepared by area-less commands,
     then 2-5 plain pushes carrying ?/! areas whose count lies among the operands."""
-    counts = [rng.choice([1, 2, 3, 5, 7, 12, 33, 100, 200, rng.randint(1, 200)]) for _ in range(rng.randint(1, 2))]
+    counts = [rng.choice([0, 0, 1, 1, 2, 3, 5, 7, 12, 33, 100, 200, rng.randint(0, 200)]) for _ in range(rng.randint(1, 2))]
     prog = []
     nops = rng.randint(3, 9)
     for _ in range(nops):
@@ -93,11 +93,15 @@ def gen_compare_prog(rng):
             v = max(0, c + rng.choice([-1, 0, 0, 1, -c, c]))
             prog += push_value(v)
         elif k < 0.75:
-            # fraction p/q near c:  p = c*q + r
+            # fraction p/q near c (or near -c, or a proper fraction near 0):  p = c*q + r
             q = rng.choice([2, 3, 4, 7])
             p = c * q + rng.choice([-1, 1, 0, -q, q, 1])
+            if rng.random() < 0.25:
+                p = rng.randint(1, q - 1)
             p = max(p, 0)
             prog += push_value(p) + push_value(q) + [(4, 1, 5, None), (2, 2, 3, None)]
+            if rng.random() < 0.35:
+                prog += [(3, 1, 5, None)]       # negate the fraction
         elif k < 0.9:
             prog += push_value(max(0, c + rng.choice([-1, 0, 1]))) + [(3, 1, 5, None)]
         else:
@@ -107,14 +111,14 @@ def gen_compare_prog(rng):
     cmp_idx = []
     for _ in range(ncmp):
         c = rng.choice(counts)
-        h = rng.choice([x for x in (1, 2, 3, 4, 5) if c % x == 0])
+        h = rng.choice([x for x in (1, 2, 3, 4, 5) if c % x == 0]) if c else rng.choice([1, 2, 3])
         cmp_idx.append(len(prog))
         a = rand_area(rng, hearts, p_none=0.0, p_more_q=0.6, p_more_b=0.45, p_slot_none=0.5, maxq=3, maxb=2)
         if rng.random() < 0.8:
             # the push itself puts `count` on top; a leading '?' consumes it (count < count is false -> right)
             # so that the remaining operators meet the prepared operands
             a = ('?', None, a)
-        prog.append((0, h, c // h, a))
+        prog.append((0, h, c // h if c else 0, a))
         if rng.random() < 0.3:
             prog += push_value(rng.choice(counts))
     if rng.random() < 0.6:
@@ -150,6 +154,12 @@ def _case(i):
         res['hist']['operand_vs_count:' + rel] = res['hist'].get('operand_vs_count:' + rel, 0) + 1
         if cnt != 0:
             res['hist']['compares_count_nonzero'] = res['hist'].get('compares_count_nonzero', 0) + 1
+        else:
+            res['hist']['compares_count_zero'] = res['hist'].get('compares_count_zero', 0) + 1
+        if v is not None and v.denominator != 1 and v < 0:
+            res['hist']['negative_fraction_operands'] = res['hist'].get('negative_fraction_operands', 0) + 1
+            if -1 < v - cnt < 1:
+                res['hist']['negative_fraction_within_1_of_count'] = res['hist'].get('negative_fraction_within_1_of_count', 0) + 1
     res['ncmp'] = len(m2.cmp_log)
     res['key'] = C.sha(text)
     path = P.write_program(rundir, 'p%d_%d.hyeong' % (os.getpid(), i), text)
@@ -227,5 +237,6 @@ def main(tier, seed):
                    'program-level attribution: only divergences at a step whose command is a plain push with an area are judged here; others are left to C01/C06']
     minimum = {'pairs': (n, 5000), 'cmp:N': (hist.get('cmp:N', 0), 100), 'cmp:L': (hist.get('cmp:L', 0), 500),
                'program comparisons': (ncmp, 1000),
-               'fraction operands at ?': (phist.get('branch:?:frac:left', 0) + phist.get('branch:?:frac:right', 0), 100)}
+               'fraction operands at ?': (phist.get('branch:?:frac:left', 0) + phist.get('branch:?:frac:right', 0), 100),
+               'negative fractions within 1 of the count': (phist.get('negative_fraction_within_1_of_count', 0), 20)}
     return rep.finish(cov, assumptions, t0, minimum)
